@@ -145,16 +145,17 @@ class MHLHistory:
 
         return directory_hash_entries
 
-    def find_first_hash_entry_for_path(self, relative_path, hash_format=None) -> Optional[MHLHashEntry]:
+    def find_first_hash_entry_for_path(self, relative_path, hash_format=None, files_only=False) -> Optional[MHLHashEntry]:
         """Searches the history for the first (original) hash entry of a file
         or if an optional hash format is given the first hash in that format
 
         starts with the first generation, if we don't find it there we continue to look in all other generations
         until we've found the first appearance of the give file.
+        with files_only the directory hashes of a folder that once had this name are skipped, they are no hashes of the file
         """
         for hash_list in self.hash_lists:
             media_hash = hash_list.find_media_hash_for_path(relative_path)
-            if media_hash is None:
+            if media_hash is None or (files_only and media_hash.is_directory):
                 continue
             for hash_entry in media_hash.hash_entries:
                 if hash_format is not None and hash_entry.hash_format == hash_format:
@@ -168,7 +169,7 @@ class MHLHistory:
         hash_formats = []
         for hash_list in self.hash_lists:
             media_hash = hash_list.find_media_hash_for_path(relative_path)
-            if media_hash is None:
+            if media_hash is None or media_hash.is_directory:
                 continue
             for hash_entry in media_hash.hash_entries:
                 if hash_entry.hash_format not in hash_formats:
